@@ -2577,7 +2577,7 @@ impl L7Proxy for HttpsProxy {
         // Mirror of HttpProxy::remove_session — drain the per-(cluster,
         // source-IP) accounting before the slab slot is reused.
         sessions.untrack_all_cluster_ip(token);
-        sessions.slab.try_remove(token.0).is_some()
+        sessions.release(token.0).is_some()
     }
 
     fn backends(&self) -> Rc<RefCell<BackendMap>> {
